@@ -58,8 +58,31 @@ def fuzz_sources(rnd, n):
     for i in range(n):
         k = rnd.randint(0, 6)
         s = "".join(rnd.choice(FUZZ_POOL) for _ in range(k))
-        which = i % 6
-        if which == 0:
+        which = i % 9
+        lit = rust_lit(s)
+        if which == 6:
+            # validator attribute lists that are valid token trees but not validator syntax (structural parsing
+            # fails and any text fallback runs): foreign literals, missing commas, wrong delimiters, stray values
+            pool = ["length(min = 1, max = 20, message = %s)" % lit, "range(min = 1, message = %s)" % lit, "email(message = %s)" % lit,
+                    "url", '"legacy"', lit, "custom(function = \"f\", message = %s)" % lit, "length(min = 1, message = %s, %s)" % (lit, lit),
+                    "length(message = %s min = 1)" % lit, "message = %s" % lit, "length(min = 1)(x)", "regex(path = *RE, message = %s)" % lit,
+                    "length[min = 1, message = %s]" % lit, "42", "nested::path(message = %s)" % lit, "range(min = , max = 3, message = %s)" % lit,
+                    "length(min = 1, message = %s) = 3" % lit, "email = %s" % lit]
+            items = [rnd.choice(pool) for _ in range(rnd.randint(1, 3))]
+            body = "#[derive(Serialize, Deserialize)]\npub struct Fz%d { #[validate(%s)] pub f: String }\n#[tauri::command]\npub fn fz%d(a: Fz%d) {}" % (i, ", ".join(items), i, i)
+        elif which == 7:
+            pool = ["rename = %s" % lit, "rename(serialize = %s, deserialize = %s)" % (lit, lit), "rename_all = %s" % lit, '"x"', lit, "7",
+                    "rename = %s = 1" % lit, "rename[%s]" % lit, "alias = %s" % lit, "skip", "default = %s" % lit, "rename_all(serialize = %s)" % lit,
+                    "rename %s" % lit, "tag = %s" % lit, "other::path(%s)" % lit]
+            cont = [rnd.choice(pool) for _ in range(rnd.randint(1, 3))]
+            fld = [rnd.choice(pool) for _ in range(rnd.randint(1, 3))]
+            body = "#[derive(Serialize, Deserialize)]\n#[serde(%s)]\npub struct Fz%d { #[serde(%s)] pub some_field: String }\n#[derive(Serialize, Deserialize)]\n#[serde(%s)]\npub enum Ez%d { #[serde(%s)] FirstOne, B }\n#[tauri::command]\npub fn fz%d(a: Fz%d, b: Ez%d) {}" % (
+                ", ".join(cont), i, ", ".join(fld), ", ".join(cont), i, ", ".join(fld), i, i, i)
+        elif which == 8:
+            pool = ["rename_all = %s" % lit, "async", '"x"', lit, "rename_all = \"snake_case\"", "root = %s" % lit, "rename_all(%s)" % lit, "rename_all = %s = 2" % lit]
+            args = [rnd.choice(pool) for _ in range(rnd.randint(1, 3))]
+            body = "#[tauri::command(%s)]\npub fn fz%d(some_arg: u8) {}\n#[command(%s)]\npub fn fy%d(other_arg: u8) {}\n#[tauri::command]\npub fn fzc%d() {}" % (", ".join(args), i, ", ".join(args), i, i)
+        elif which == 0:
             body = "#[derive(Serialize, Deserialize)]\npub struct Fz%d { #[validate(length(min = 1, message = %s))] pub f: String }\n#[tauri::command]\npub fn fz%d(a: Fz%d) {}" % (i, rust_lit(s), i, i)
         elif which == 1:
             body = "#[derive(Serialize, Deserialize)]\npub struct Fz%d { #[serde(rename = %s)] pub f: String, #[serde(alias = %s)] pub g: u8 }\n#[tauri::command]\npub fn fz%d(a: Fz%d) {}" % (i, rust_lit(s), rust_lit(s), i, i)
@@ -85,7 +108,7 @@ def run(tier, seed):
     # ---- (a) + (b): grammar-generated and fuzzed sources through the real CLI, both modes
     sources = [("exotic%d" % i, rustgen.PRELUDE + "use validator::Validate;\n" + t + "\n#[tauri::command]\npub fn anchor_%d() {}\n" % i, t[:60]) for i, t in enumerate(EXOTIC_ITEMS)]
     sources.append(("exotic-all", rustgen.PRELUDE + "use validator::Validate;\n" + "\n".join(EXOTIC_ITEMS) + "\n#[tauri::command]\npub fn anchor_all() {}\n", "all exotic items together"))
-    sources += fuzz_sources(rnd, 240 if tier == "quick" else 3000)
+    sources += fuzz_sources(rnd, 360 if tier == "quick" else 4500)
 
     def work(src):
         name, text, what = src
